@@ -143,6 +143,9 @@ def direct_count(r):
     return sum(1 for ob in r["obs"] if isinstance(ob, dict) and ob.get("_twin") is not None)
 
 
+CTOR_KINDS = ["set", "list", "tuple", "frozenset", "gen", "iter", "filter", "dictkeys"]
+
+
 def exhaustive(tier):
     """all naive/aware assignments for the six calls and the constructor, against the model"""
     fails, count = [], 0
@@ -178,12 +181,16 @@ def exhaustive(tier):
                     if ctor:
                         o["ctor"] = True
                     scn = {"tz": tz, "max_exec": 0, "prio": 0, "clock0": B0, "ops": [o, {"op": "exec", "clock": B0 + 30 * 24 * H}, {"op": "exec", "clock": B0 + 31 * 24 * H, "force": True}]}
+                    if ctor:
+                        scn["ctor_kind"] = CTOR_KINDS[len(scns) % len(CTOR_KINDS)]
                     scns.append(scn)
                     if ctor:
-                        # the job's own tzinfo differing from the scheduler's
-                        s2 = json.loads(json.dumps(scn))
-                        s2["ops"][0]["_jobtz"] = None if tz is not None else H
-                        scns.append(s2)
+                        # the job's own tzinfo differing from the scheduler's, handed over in every kind of iterable
+                        for kind in CTOR_KINDS:
+                            s2 = json.loads(json.dumps(scn))
+                            s2["ops"][0]["_jobtz"] = None if tz is not None else H
+                            s2["ctor_kind"] = kind
+                            scns.append(s2)
     from .. import framework as fw
     import sys
     mod = sys.modules[__name__]
